@@ -41,7 +41,7 @@ def register(PROPS):
         'level': 'model_checking',
         'technique': 'explicit-state exploration of the real echsd against a reference model of per-task concurrency limits',
         'claim': 'Task X (MAX-SIMUL 1, 2 or unset) and task Y (unset or 1), both SECONDLY with six occurrences: every history up to the stated '
-                 'depth over {ADD/replace, CANCEL, TICK on-time/idle/late, a TICK during which the start of the one due task fails before a child exists (pipe() answers EMFILE), EXIT of any live job (each job individually)} is executed; a start must be for real '
+                 'depth over {ADD/replace, CANCEL, TICK on-time/idle/late, a TICK during which the start of the one due task fails before a child exists (pipe() answers EMFILE, or posix_spawn() returns EAGAIN; the stack is filled with a fixed pattern first so that an uninitialised pid reads the same every time), EXIT of any live job (each job individually)} is executed; a start must be for real '
                  'iff fewer than N jobs of that task are alive, otherwise carry the no-run flag; every real job must be watched; the other task\'s '
                  'starts are judged by its own limit only.  A linear sweep runs one fill / refuse / exit / run-again history for every N = 1..62, two histories in which a task WITHOUT a limit has 64 / 65 jobs running when it is cancelled and a limited task takes over while the old jobs exit, and three with a calendar-level limit (overridden by the event\'s own, or inherited).',
         'note': E2_NOTE + '  Real process lifetimes are replaced by explicit EXIT events; echsx\'s handling of the no-run flag is C13/C14 territory.',
@@ -64,7 +64,7 @@ def register(PROPS):
                  '{ADD with owner field absent / = self / = other (as a number and as a user name) / a number that no user has, two instructions in one request, CANCEL (also of unknown and foreign UIDs), '
                  'GET /queue (own and another user\'s), GET /sched, TICK} is executed; the number and kind of REQUEST-STATUS replies, the task '
                  'table with owners, the bodies of the listings (no foreign or stale UID, own queued UIDs present) and the SETUID of every started '
-                 'job are compared with a map<UID, (owner, schedule)> model.  Linear "busy" histories reach what depth cannot: 17 acknowledged requests between two checkpoints (the 17th by the same or by another user) followed by the listing, and 300 (thorough also 1500) distinct UIDs of one user next to 3 of another in one daemon life - queue files and listings must hold exactly the submitted UIDs, every UID must be cancellable by its owner, nothing may be left.',
+                 'job are compared with a map<UID, (owner, schedule)> model.  Linear "busy" histories reach what depth cannot: 17 acknowledged requests between two checkpoints (the 17th by the same or by another user) followed by the listing, and 300 (thorough also 1500) distinct UIDs of one user next to 3 of another in one daemon life - queue files and listings must hold exactly the submitted UIDs, every UID must be cancellable by its owner, nothing may be left; 40 clients connected at the same time (each has sent half of its request when the others send theirs) must each get the reply to their own request and have their task filed under their own uid.',
         'note': E2_NOTE + '  Task oids are 32-bit hashes of the UID; the multi-gigabyte table growth reachable with hashes that agree in 25+ low bits is outside the alphabet.',
         'rule': 'as C04',
         'bound': {'quick': 'depth 4', 'thorough': 'depth 5'},
@@ -72,8 +72,8 @@ def register(PROPS):
         'drivers': [
             D('e2_explore', ['prop=C11', 'depth=4', '--case-timeout', '120'], ['prop=C11', 'depth=5', '--case-timeout', '600'], label='depth'),
             D('e2_explore', ['prop=C11', 'depth=2', '--case-timeout', '120'], ['prop=C11', 'depth=3', '--case-timeout', '300'], label='asan', variant='asan'),
-            D('e2_explore', ['prop=C11', 'mode=busy', 'variants=3', '--case-timeout', '120'], ['prop=C11', 'mode=busy', 'variants=4', '--case-timeout', '600'], label='busy', shards=4),
-            D('e2_explore', ['prop=C11', 'mode=busy', 'variants=3', '--case-timeout', '300'], label='busy-asan', variant='asan', shards=4),
+            D('e2_explore', ['prop=C11', 'mode=busy', 'variants=5', 'skip=3', '--case-timeout', '120'], ['prop=C11', 'mode=busy', 'variants=5', '--case-timeout', '600'], label='busy', shards=5),
+            D('e2_explore', ['prop=C11', 'mode=busy', 'variants=5', 'skip=3', '--case-timeout', '300'], label='busy-asan', variant='asan', shards=5),
         ],
         'assumptions': ['what root may submit on behalf of others is not in the alphabet (the property does not speak about it)',
                         'a request for another user\'s queue may be answered with a refusal or with the caller\'s own view, never with foreign UIDs'],
